@@ -257,6 +257,7 @@ type gatherWorld struct {
 	lis      *fakeLis
 	gathers  int
 	closed   bool
+	strict   bool
 	contact  func()
 	cmu      sync.Mutex
 }
@@ -508,8 +509,10 @@ func (gw *gatherWorld) Close() {
 		gw.closed = true
 	}
 	// abandoned exchanges of superseded cycles (a TURN allocation nobody answers) end on their own timeouts
-	time.Sleep(30 * time.Second)
-	quiesce()
+	if !gw.strict {
+		time.Sleep(30 * time.Second)
+		quiesce()
+	}
 	if gw.udpMux != nil {
 		_ = gw.udpMux.Close()
 	}
